@@ -1024,12 +1024,19 @@ func exec(e *lp.Exec) {
 			f.Close()
 		}
 	}()
+	firstLine := true
 	for e.In.Scan() {
 		line := e.In.Text()
 		f := strings.Fields(line)
 		if len(f) == 0 {
 			continue
 		}
+		if firstLine && len(f) >= 2 && f[0] == "C" && f[1] == "real" {
+			vsys.VirtualAll = false // a file of real-socket cases runs on the real kernel
+			execReal(e, line)
+			return
+		}
+		firstLine = false
 		e.P("> %s", line)
 		switch {
 		case f[0] == "C":
@@ -1272,4 +1279,10 @@ func exec(e *lp.Exec) {
 	cur.finish()
 }
 
-func main() { lp.Main(gen, exec) }
+func main() {
+	if len(os.Args) > 1 && os.Args[1] == "real" {
+		realGen(os.Args[2:])
+		return
+	}
+	lp.Main(gen, exec)
+}
